@@ -160,6 +160,10 @@ theorem quotaInv_step (hist : List Ev) (s : S) (e : Ev) (s' : S) (I : QuotaInv h
     all_goals first | (simp at h; done) | skip
     all_goals simp only [Option.some.injEq] at h; subst h
     all_goals exact quota_keep I rfl rfl rfl rfl rfl rfl
+  | quiescent =>
+    simp only [step] at h; split at h
+    · simp only [Option.some.injEq] at h; subst h; exact quota_keep I rfl rfl rfl rfl rfl rfl
+    · simp at h
 
 theorem quotaInv_reach {tr : List Ev} {s : S} (h : run init tr = some s) : QuotaInv tr s :=
   inv_reach QuotaInv quotaInv_init quotaInv_step tr s h
